@@ -192,7 +192,7 @@ static std::string finding_class(const Cfg& c) {
   std::string t;
   // (the classes of the repaired findings F84 Deatanhe guard, F85 DDatanhee2 selection for prolate ellipsoids, F86 Newton cycle in
   // Albers Init, F88 five Newton iterations in tauf/tphif are gone: a regression alarms)
-  // F94 (open): the stopping tolerance of Math::tauf is relative to |taup|; on a prolate ellipsoid |taup|/|tau| reaches exp(e atan e)
+  // F98 (open): the stopping tolerance of Math::tauf is relative to |taup|; on a prolate ellipsoid |taup|/|tau| reaches exp(e atan e)
   // (164 at f = -3, 4000 at f = -5), the Newton loop then stops with a step of up to 1.5e-8 exp(e atan e) |tau| and the quadratic
   // remainder (1e-12 relative at f = -5) is returned.  The class: the projections that invert the conformal latitude, f <= -3
   if (c.cls != 2 && c.f <= -3) t += " [class:tauf-prolate-stop-rule]";
@@ -204,7 +204,7 @@ static std::string finding_class(const Cfg& c) {
   // (a polar cone: t0^n = 0, n = 1, F = 2/sqrt((1+e)^(1+e) (1-e)^(1-e)); there Reverse forms tnm1 + 1 with the same absolute error)
   if (c.cls == 1 && c.f < 0) { Cfg c0 = c; c0.ss = 0; c11::Proj P = oracle(c0);
     if (P.polar ? c11::dbl(2 / P.E.cps()) >= 28 * kappa(c.f) : (!P.cyl && c11::fin(P.F) && c11::dbl(fabsq(P.n * P.F)) >= 28 * kappa(c.f))) t += " [class:lcc-prolate-t0nm1]";
-    // F95 (open): Reverse in the branch 2n <= 1 updates tan(chi) by Dsinh(psi, psi0), whose cosh((psi + psi0)/2) = sqrt((sinh sinh + cosh cosh + 1)/2)
+    // F99 (open): Reverse in the branch 2n <= 1 updates tan(chi) by Dsinh(psi, psi0), whose cosh((psi + psi0)/2) = sqrt((sinh sinh + cosh cosh + 1)/2)
     // cancels when psi psi0 < 0: exp(2 min(|psi|, |psi0|))/2 ulp are lost.  With 2n <= 1 (origin below 30 degrees) |psi0| <= 0.55 on
     // terrestrial ellipsoids, but the isometric latitude of a prolate one gains e atan(e sin phi).  The class: LCC, f < 0, 2|n| <= 1 and
     // exp(2 |psi0|) >= 256 kappa (the lost digits alone exceed the documented budget: eps exp(2 |psi0|)/8 >= 4 kappa 10 nm / a_WGS84)
@@ -216,7 +216,7 @@ static std::string finding_class(const Cfg& c) {
   // parallel and the pole (radius a difference of nearly equal numbers) is off by far more than the condition number allows, also for one parallel
   if (c.f >= 0.9 && std::fmin(c1, c2) < 2e-4 && std::fmin(c1, c2) > 0 && (!distinct_parallels(c) || (s1 == s2 && c1 == c2))) t += " [class:oblate-init-accuracy]";
   if (!distinct_parallels(c) || (s1 == s2 && c1 == c2)) return t;
-  // F95 (open), its part in Init: the careful evaluation of 1 - n (taken for n >= 1/4) calls Dsinh on the pairs (xiZ, xi1), (xiZ, xi2), (xi1, xi2) of
+  // F99 (open), its part in Init: the careful evaluation of 1 - n (taken for n >= 1/4) calls Dsinh on the pairs (xiZ, xi1), (xiZ, xi2), (xi1, xi2) of
   // xi = eatanhe(sin phi); with parallels in opposite hemispheres two of the pairs have opposite signs and exp(2 |xi1|)/2 ulp are lost in 1 - n
   // (xi1 of the parallel nearer the equator; |xi| = e atan(e |sin phi|) on a prolate ellipsoid, < e^2 on an oblate one) -- _nc is then off and the
   // renormalisation n/hypot(n, nc) spoils n.  The class: LCC, f < 0, parallels in opposite hemispheres, exp(2 |xi1|) >= 256 kappa (n >= 1/4 is not
@@ -758,7 +758,7 @@ static Reg r_cddat("cddat", [](const Args& a) {
   double dd = q.DDatanhee(x, y), am = AlbersEqualArea::atanhxm1(xm);
   emit(hx(dd) + " " + hx(am));
   c11::Ell E(1, f); const double kp = kappa(f);
-  // (the open numerical-range defect of DDatanhee2, F93: overflow of 1/(1 - e^2)^m against underflow of (1 - x)^m for 1 - e^2 < 1e-3; the
+  // (the open numerical-range defect of DDatanhee2, F96: overflow of 1/(1 - e^2)^m against underflow of (1 - x)^m for 1 - e^2 < 1e-3; the
   // cancellation for e^2 < -3, F85, is repaired by the selection rule q2 = (1 + e) e/(1 - e^2) (1 - x) for f < 0)
   // overflow: DDatanhee2 selected (q2 < 3/4 <= q1) and the M = 16/log10(1/q2) terms it needs drive 1/(1 - e^2)^(M+2) or (1 - x)^M out of range
   { double lo = std::fmin(x, y), e2 = e2of(f), q2 = std::fabs((f < 0 ? 1 + std::sqrt(std::fabs(e2)) : 2) * std::sqrt(std::fabs(e2)) / (1 - e2) * (1 - lo));
